@@ -288,6 +288,18 @@ func genC07(r *Rng, tier string, emit func(Case)) {
 				e("bechdec", "long", hx(append(m, bytes.Repeat([]byte("q"), r.Intn(10))...)))
 			}
 		}
+		// boundary shapes of the human-readable part: empty (separator first), one character, a character just outside 33..126
+		if r.Intn(6) == 0 {
+			if se, err := bech32.Encode("", append([]byte{}, data...)); err == nil {
+				e("bechdec", "emptyhrp", hs(se))
+				e("bechdec", "emptyhrp", hs(strings.ToUpper(se)))
+			}
+			for _, h := range []string{"a", "1", "11", string([]byte{byte(r.Pick(32, 127, 31, 128))}) + "a"} {
+				if se, err := bech32.Encode(h, append([]byte{}, data...)); err == nil {
+					e("bechdec", "hrpshape", hs(se))
+				}
+			}
+		}
 		if r.Intn(10) == 0 {
 			data2 := r.Bytes(1 + r.Intn(5))
 			e("bechenc", "bad5bit", hx(hrp), hx(data2))
